@@ -4,7 +4,7 @@ import ast
 from ..program import AnalysisError, U, own_nodes, walk_no_nested
 from ..dataflow import ReachingDefs, defs_of_node
 from ..consteval import fold, class_consts, module_consts
-from .common import (need, guards_of, calls_to, all_paths_pass, succs, normal_succs, path_conditions,
+from .common import (match_exact, guard_atom_sets, path_atom_sets, unmatched, need, guards_of, calls_to, all_paths_pass, succs, normal_succs, path_conditions,
                      atom_text, is_param, interval_of, struct_format, arg_of, default_of, INF, stores_in_package)
 
 PROPERTY = 'C04'
@@ -539,7 +539,7 @@ def once(R):
     okfd = bool(calls) and never_returns(R.exc, R.ctx('session.WebsocketSession.force_disconnect'))
     for (n, c) in calls:
         lits = {(t, p) for (t, p, _) in guards_of(gf, n)}
-        okfd = okfd and lits <= {('self.state.session is not None', True), ('self.session is not None', True)}
+        okfd = okfd and match_exact(guard_atom_sets(gf, n), [{('self.state.session is None', False), ('self.session is None', False)}])
     esc = R.exc.escapes(R.ctx('session.WebsocketSession.force_disconnect'))
     R.ob('C04.once', 'force_disconnect raises _ForceDisconnect', okfd and esc == {'session._ForceDisconnect'},
          'session.force_disconnect() may return or raises %s' % sorted(esc), func='websocket.WebSocket.force_disconnect',
@@ -639,7 +639,7 @@ def disc(R):
                 n_h += 1
                 R.ob('C04.disc', 'handler Disconnected is non-graceful', val is False,
                      'Disconnected in an exception handler has graceful=%s' % U(a if a is not None else d), func=q, node=v)
-    need(n_h >= 3, 'fewer than 3 Disconnected yields in handlers of run()')
+    need(n_h >= 1, 'no Disconnected yields in handlers of run()')
 
 
 def masked(R):
@@ -657,7 +657,7 @@ def masked(R):
     good = False
     for rn in rz:
         for l in path_conditions(R, g, rd, g.entry, rn):
-            if l == frozenset({('%s.mask' % fp, True)}):
+            if match_exact(path_atom_sets(l), [{('%s.mask' % fp, True)}]):
                 good = True
     R.ob('C04.masked', 'mask bit alone triggers the error', good,
          'no ProtocolError raised under exactly `%s.mask`' % fp, func=f, node=None, construct='mask check')
